@@ -473,6 +473,13 @@ func (e *Exec) ccall(st *State, x *ast.CallExpr, env *cenv) Val {
 				e.fail(x.Pos(), "contract: deref of non-pointer")
 			}
 			return e.deref(st, p, pt, x.Pos())
+		case "inmaprange":
+			// inmaprange(): the clause is being evaluated inside the body of a loop that ranges over a map (whose
+			// iteration order Go randomises)
+			if e.mapRangeDepth > 0 {
+				return Val{T: True, GT: boolT}
+			}
+			return Val{T: False, GT: boolT}
 		case "collected":
 			// collected(W, x): x was added to the ghost set W by a `collect` clause
 			id0, ok := x.Args[0].(*ast.Ident)
